@@ -78,6 +78,7 @@ class Family(object):
     """interface; see c07_v6u.py for the worked family"""
     name = ''
     imports = ''                 # Coq imports for the case files
+    modelled = True              # False: oracle only (no Coq model yet); listed under not_covered
 
     def gen(self, ctx):          # -> list of cases
         raise NotImplementedError
@@ -149,9 +150,10 @@ def run_family(ctx, fam, per_shard=120):
     nontrivial = 0
     for case in cases:
         cc, octets, pc, verdict = impl_roundtrip(fam, case)
-        pairs.append((fam.coq_construct(case), cc, case, 'construct'))
-        if octets is not None:
-            pairs.append((fam.coq_parse(case, octets), pc, case, 'parse'))
+        if fam.modelled:
+            pairs.append((fam.coq_construct(case), cc, case, 'construct'))
+            if octets is not None:
+                pairs.append((fam.coq_parse(case, octets), pc, case, 'parse'))
         if verdict is None:
             nontrivial += 1
             continue
@@ -188,8 +190,19 @@ def run(ctx):
     fams = load_families()
     total, distinct = 0, 0
     mism, viol, samples = [], [], []
-    extra = {'families': {}, 'not_covered': NOT_COVERED}
+    extra = {'families': {}, 'not_covered': list(NOT_COVERED) + [
+        'ipv4_flowspec: model + correspondence + oracle, but only the operator-list codec is proved '
+        '(C07_flowspec_operators_roundtrip_partial); prefix components, rule and attribute framing have no theorem',
+        'labeled unicast / IPv6 flowspec MP_UNREACH and add-path variants: not modelled'],
+        'proved_families': ['ipv6_unicast (reach+unreach)', 'vpnv4/vpnv6 (reach+unreach)',
+                            'labeled_unicast_v4/v6 (reach)', 'label stacks', 'route distinguishers',
+                            'flowspec operator lists (partial)'],
+        'patches_assumed_applied': ['build/proposed/c07-1-construct-prefix-v6.diff',
+                                    'build/proposed/c07-2-construct-prefix-v4-zero.diff',
+                                    'build/proposed/c07-3-evpn-esi-type3-width.diff (optional: otherwise a known finding)']}
     for fam in fams:
+        if not fam.modelled:
+            extra['not_covered'] = extra['not_covered'] + ['%s: no Coq model / theorem; oracle only' % fam.name]
         cases, npairs, nontrivial, m, v = run_family(ctx, fam)
         total += len(cases) + npairs
         distinct += nontrivial
